@@ -165,6 +165,7 @@ def run_scenario(case, schedule):
             C.deque = saved_deque
             world.scheduler = None
     res['decisions'] = sc.decisions
+    res['timeout_diag'] = sc.timeout_diag
     res['preemptions'] = sc.preemptions
     res['deadlock'] = sc.deadlock
     res['steps'] = sc.steps
@@ -188,7 +189,7 @@ def check(ctx, case, schedule, r):
     sub = dict(case, schedule=list(schedule))
     if r['outcome'] == 'timeout':
         from vlib.core import HarnessError
-        raise HarnessError('C12 scenario hit the harness wall-clock guard')
+        raise HarnessError('C12 scenario hit the harness wall-clock guard: %r' % (r.get('timeout_diag'),))
     if r['outcome'] == 'deadlock':
         ctx.fail('schedule', 'A5-deadlock', sub, r['deadlock'])
         return
